@@ -619,6 +619,68 @@ def densityX (cdiff : Bool) (x : List K) : List K := if cdiff then (x.drop 1).dr
 def Obj.density (o : Obj K) (xo : Option (List K)) (dO : Option (List (V3 K))) (cdiff : Bool) : List K × List (V3 K) :=
   (densityX cdiff (o.args xo dO).1, disldensity cdiff (o.args xo dO).1 (o.args xo dO).2)
 
+/-! ### refusals of the profile setters and of `solve` (which inputs raise, at which statement, what is stored then) -/
+
+section refusals
+
+/-- what the implementation raises: `AssertionError` of the `x` setter (uneven or not increasing), `IndexError` of `diff[0]`
+    (fewer than two points), `AssertionError` of the `disregistry` setter (out-of-plane component), `ValueError` of `.max()` of an
+    empty array, `ValueError('x and disregistry are not of the same length')` of `solve`. -/
+inductive Refusal where
+  | xAssert | xIndex | dAssert | dValue | lengths
+deriving Repr, DecidableEq
+
+/-- `diff = value[1:] - value[:-1]`. -/
+def xDiffs (x : List K) : List K := List.zipWith (· - ·) (x.drop 1) x
+
+/-- the `x` setter: `assert np.allclose(diff, diff[0], atol=0.0)` (`|diff_i − diff_0| ≤ 1e-5 |diff_0|`), then
+    `assert diff[0] > 0`; `none` = accepted. -/
+def xSetter? (x : List K) : Option Refusal :=
+  match xDiffs x with
+  | [] => some .xIndex
+  | d0 :: ds =>
+    if (d0 :: ds).all (fun t => decide (absK (t - d0) ≤ tolR * absK d0)) && decide (0 < d0) then none else some .xAssert
+
+def maxAbs3 (v : V3 K) : K := maxK (absK v.x) (maxK (absK v.y) (absK v.z))
+
+/-- the `disregistry` setter: `assert np.allclose(value[:,1], 0.0, atol=1e-8 * np.abs(value).max())`. -/
+def dSetter? (d : List (V3 K)) : Option Refusal :=
+  match maxOf (d.map maxAbs3) with
+  | none => some .dValue
+  | some m => if d.all (fun v => decide (absK v.y ≤ tolA * m)) then none else some .dAssert
+
+/-- `obj.x = value` / `obj.disregistry = value`: on a refusal nothing is stored. -/
+def Obj.setX? (o : Obj K) (x : List K) : Obj K × Option Refusal :=
+  match xSetter? x with
+  | none => ({ o with x := x }, none)
+  | some r => (o, some r)
+
+def Obj.setD? (o : Obj K) (d : List (V3 K)) : Obj K × Option Refusal :=
+  match dSetter? d with
+  | none => ({ o with d := d }, none)
+  | some r => (o, some r)
+
+/-- `solve(**kwargs)` with its refusals, in the order of the source: the `x` keyword goes through its setter first (refused:
+    nothing changed), then `disregistry` (refused: the new `x` IS already stored, no other keyword is), then the other keywords,
+    then the length check (refused: every keyword is stored), then the minimiser, then the result goes through the `disregistry`
+    setter once more (refused: the guess stays). -/
+def Obj.solve? (o : Obj K) (kw : SolveKw K) (res : List K) : Obj K × Option Refusal :=
+  match kw.x.bind xSetter? with
+  | some r => (o, some r)
+  | none =>
+    let o1 : Obj K := { o with x := kw.x.getD o.x }
+    match kw.d.bind dSetter? with
+    | some r => (o1, some r)
+    | none =>
+      let o2 := o.applyKw kw
+      if o2.x.length ≠ o2.d.length then (o2, some .lengths)
+      else
+        match dSetter? (solveResult res o2.d) with
+        | some r => (o2, some r)
+        | none => ({ o2 with d := solveResult res o2.d }, none)
+
+end refusals
+
 /-! ### analytic arctangent profile -/
 
 /-- `pn_arctan_disregistry`; `normB = |burgers|`, `normLast = |δ[-1] - δ[0]|` of the raw profile. -/
